@@ -15,26 +15,29 @@ TITLE = "robustness against bad input"
 RULE = (
     "valid definitions from G-def (with a dependency universe) mutated at token level (delete/duplicate/swap/replace/"
     "insert from a dictionary of keywords, operators, brackets, quotes, escapes; 1-3 edits), by character noise (ASCII, "
-    "control characters, Unicode letters/digits/spaces/BOM), pure noise texts, 230 targeted corner statements (even roots "
-    "of negatives, overflowing powers, out-of-range and surrogate escapes, bad capacities/widths/directives, bounded deep "
-    "nesting) placed at a random line; and hostile file names (component counts 0-6, signed/huge/spaced/non-ASCII "
-    "numerals, dotted / reserved / Unicode directory names). Outcome taxonomy at the API boundary: model | "
-    "InvalidDefinitionError with path = offending file | anything else = violation. Non-trivial: mutated text differs "
-    "from its seed and is not whitespace-only; distinct by text digest."
+    "control characters, Unicode letters/digits/spaces/BOM), pure noise texts, ~250 targeted corner statements (even roots "
+    "of negatives, overflowing powers, powers of operands beyond float range, out-of-range and surrogate escapes, bad "
+    "capacities/widths/directives) placed at a random line; statements nested 17-1000 levels deep (parentheses, sets, "
+    "unary/binary operators, array capacities, unbalanced openers); chains of 3-300 definitions each depending on the next; "
+    "and hostile file names (component counts 0-6, signed/huge/spaced/non-ASCII numerals, dotted / reserved / Unicode "
+    "directory names). Outcome taxonomy at the API boundary: model | InvalidDefinitionError with path = offending file | "
+    "anything else = violation. Non-trivial: mutated text differs from its seed and is not whitespace-only; distinct by "
+    "text digest."
 )
 ASSUMPTIONS = [
-    "mutants that could only exhaust resources (more than one ** per line, exponent literals with >=5 digits, nesting >16) "
-    "are dropped and counted, as the quantifier bounds length and nesting",
-    "text is valid UTF-8 (non-text file content is outside 'text offered as a definition')",
+    "mutants that could only exhaust memory in big-integer arithmetic are dropped and counted: a power whose estimated "
+    "result exceeds ~4 Mbit (bits of the largest literal x its value ** number of left-nested powers), any exponent tower "
+    "beyond 2**2**4, exponent literals whose value exceeds 1e30 used in a power",
+    "text is valid UTF-8 (non-text file content is outside 'text offered as a definition'); length <= 4 kB (12 kB for deep nesting)",
 ]
-MIN_MONITORS = {"outcome": 30000, "outcome-error-with-path": 15000, "outcome-model": 2000, "file-name": 1200, "corner": 2000}
+MIN_MONITORS = {"outcome": 30000, "outcome-error-with-path": 15000, "outcome-model": 2000, "file-name": 1200, "corner": 2000, "deep-nesting": 800, "chain": 100}
 THOROUGH_MIN_SCALE = 10
 
 
 def plan(tier):
     if tier == "quick":
-        return {"shards": 16, "params": {"n": 40000, "n_names": 2400, "time_cap_s": 300}}
-    return {"shards": 16, "params": {"n": 1000000, "n_names": 50000, "time_cap_s": 2400}, "hard_timeout_s": 4000}
+        return {"shards": 16, "params": {"n": 40000, "n_names": 2400, "n_chains": 160, "time_cap_s": 300}}
+    return {"shards": 16, "params": {"n": 1000000, "n_names": 50000, "n_chains": 3200, "time_cap_s": 2400}, "hard_timeout_s": 4000}
 
 
 CULPRIT_RE = re.compile(r"issues/new\?title=(\S+)")
@@ -153,6 +156,26 @@ def run_text(ctx, pydsdl, deps, text, kind, workdir, api, as_dependency=False):
         shutil.rmtree(base, ignore_errors=True)
 
 
+def run_chain(ctx, pydsdl, case, workdir):
+    base = workdir / "c13c"
+    shutil.rmtree(base, ignore_errors=True)
+    root = base / "chain"
+    root.mkdir(parents=True)
+    n = case["chain"]
+    for i in range(n):
+        nxt = "T%03d.1.0%s next\n" % (i + 1, "[<=2]" if case["array"] else "") if i + 1 < n else "uint8 leaf\n"
+        (root / ("T%03d.1.0.dsdl" % i)).write_text(nxt + "@sealed\n")
+    ctx.mon("chain")
+    try:
+        if case["api"] == "read_files":
+            fn = lambda: pydsdl.read_files([root / "T000.1.0.dsdl"], [root])  # noqa
+        else:
+            fn = lambda: pydsdl.read_namespace(root, [])  # noqa
+        return classify(ctx, pydsdl, fn, None, set(), "dependency chain of depth %d" % n, case)
+    finally:
+        shutil.rmtree(base, ignore_errors=True)
+
+
 def run_shard(ctx):
     import hashlib
 
@@ -178,6 +201,12 @@ def run_shard(ctx):
         elif r < 0.72:
             text = GF.random_noise(rng, rng.randrange(0, 200))
             kind = "noise"
+        elif r < 0.76:
+            lines = seed_text.replace("\r\n", "\n").split("\n") if rng.random() < 0.5 else ["@sealed"]
+            lines.insert(rng.randrange(len(lines) + 1), GF.deep_statement(rng))
+            text = "\n".join(lines)
+            kind = "deep"
+            ctx.mon("deep-nesting")
         else:
             lines = seed_text.replace("\r\n", "\n").split("\n") if rng.random() < 0.7 else ["@sealed"]
             stmt = rng.choice(GF.CORNER_STATEMENTS)
@@ -187,14 +216,13 @@ def run_shard(ctx):
                 text, _ = GF.mutate_tokens(rng, text, 1)
             kind = "corner"
             ctx.mon("corner")
-        if len(text) > 4000:
+        if len(text) > (12000 if kind == "deep" else 4000):
             text = text[:4000]
         if GF.risky(text):
             ctx.cls("dropped-resource-risk")
             continue
-        if GF.max_nesting(text) > 16:
-            ctx.cls("dropped-nesting")
-            continue
+        nest = GF.max_nesting(text)
+        ctx.cls("nesting-%s" % ("<=16" if nest <= 16 else "17..40" if nest <= 40 else "41..100" if nest <= 100 else ">100"))
         try:
             text.encode("utf-8")
         except UnicodeEncodeError:
@@ -215,6 +243,19 @@ def run_shard(ctx):
         ctx.case(hashlib.sha1(text.encode()).hexdigest() + str(as_dep), nontrivial, classes=["kind-" + kind, "outcome-" + out.split(":")[0], "as-dependency" if as_dep else "as-target"] +
                  (["err-" + out.split(":")[1]] if out.startswith("error:") else []),
                  sample={"kind": kind, "text": text[:300], "outcome": out} if i <= 3 else None)
+    # chains of dependencies far deeper than any real namespace (every level is a recursive reader instance)
+    for j in range(ctx.share(ctx.params["n_chains"])):
+        if ctx.out_of_time():
+            break
+        depth = rng.choice([3, 10, 30, 60, 80, 100, 150, 300])
+        case = {"chain": depth, "api": rng.choice(["read_namespace", "read_files"]), "array": rng.random() < 0.3}
+        try:
+            with ctx.watchdog(120):
+                out = run_chain(ctx, pydsdl, case, ctx.tmp)
+        except CaseTimeout:
+            ctx.inconclusive_case("watchdog", case)
+            out = "timeout"
+        ctx.case(("chain", depth, case["api"], case["array"]), True, classes=["kind-chain", "chain-depth-%d" % depth, "chain-outcome-" + out.split(":")[0]])
     # hostile file names
     for j in range(ctx.share(ctx.params["n_names"])):
         if ctx.out_of_time():
@@ -253,7 +294,9 @@ def replay(ctx, case):
     from pv.props.c02 import fix_universe
 
     pydsdl = import_pydsdl()
-    if "text" in case:
+    if "chain" in case:
+        print(run_chain(ctx, pydsdl, case, ctx.tmp))
+    elif "text" in case:
         print(run_text(ctx, pydsdl, fix_universe(case["deps"]), case["text"], case["kind"], ctx.tmp, case.get("api", "read_namespace"), case.get("as_dependency", False)))
     else:
         base = ctx.tmp / "c13n"
